@@ -362,3 +362,57 @@ def resolved_spec(entries, cites, m):
         if count[pk] >= t and pk not in seen:
             seen.add(pk); extra.append(p[0])
     return [k for k in explicit + extra if k.lower() in db]
+
+# ---- the syntactic predicate of theorem items_per_citation (Proofs/EnginesItems.v: emits / good_call), on a .bst AST
+def style_item_predicate(name, types, depth=4):
+    """-> (holds, detail).  The last ITERATE / REVERSE command is ITERATE {f} (only EXECUTE commands follow it); for every entry type in `types` f emits an item:
+    f is a FUNCTION whose body emits, or f is call.type$ and the type's FUNCTION (default.type if there is none)
+    emits; a body emits if at its top level it has  "\\bibitem..." write$  and later  cite$ write$,  or its first
+    element calls a FUNCTION that emits (chains up to `depth`).  write$ / cite$ / call.type$ are not redeclared."""
+    from pybtex.bibtex import bst
+    from pybtex.bibtex.interpreter import String, Identifier, FunctionLiteral, QuotedVar, Integer
+    cmds = list(bst.parse_file(os.path.join(DATA, name + '.bst')))
+    funcs, declared = {}, set()
+    for c in cmds:
+        n = c[0].lower()
+        if n == 'function':
+            funcs[c[1][0].value().lower()] = list(c[2])
+        elif n == 'entry':
+            for g in c[1:]:
+                declared.update(x.value().lower() for x in g)
+        elif n in ('integers', 'strings'):
+            declared.update(x.value().lower() for x in c[1])
+    for b in ('write$', 'cite$', 'call.type$'):
+        if b in funcs or b in declared:
+            return False, '%s is redeclared' % b
+    its = [i for i, c in enumerate(cmds) if c[0].lower() in ('iterate', 'reverse')]
+    if not its or cmds[its[-1]][0].lower() != 'iterate':
+        return False, 'no final ITERATE'
+    after = [c[0].upper() for c in cmds[its[-1] + 1:]]
+    if any(a not in ('EXECUTE', 'FUNCTION') for a in after):
+        return False, 'commands after the final ITERATE: %s' % after
+    last = cmds[its[-1]]
+    f = last[1][0].value().lower()
+    def is_id(x, n): return type(x) is Identifier and x.value().lower() == n
+    def emits(body, d):
+        for i in range(len(body) - 1):
+            if type(body[i]) is String and body[i].value().startswith('\\bibitem') and is_id(body[i + 1], 'write$'):
+                for j in range(i + 2, len(body) - 1):
+                    if is_id(body[j], 'cite$') and is_id(body[j + 1], 'write$'):
+                        return True
+        if d > 0 and body and type(body[0]) is Identifier and body[0].value().lower() in funcs:
+            return emits(funcs[body[0].value().lower()], d - 1)
+        return False
+    if f in funcs:
+        return (True, 'ITERATE {%s}: the function emits' % f) if emits(funcs[f], depth) else (False, 'ITERATE {%s}: no item marker at the top level' % f)
+    if f != 'call.type$':
+        return False, 'ITERATE {%s}: not a FUNCTION' % f
+    bad = []
+    for t in types:
+        if t in funcs:
+            if not emits(funcs[t], depth): bad.append(t)
+        elif t in declared:
+            bad.append(t + ' (a variable)')
+        elif 'default.type' not in funcs or not emits(funcs['default.type'], depth):
+            bad.append(t + ' (default.type)')
+    return (not bad, 'ITERATE {call.type$}: ' + ('every type function emits' if not bad else 'no item marker for types %s' % bad))
